@@ -6,6 +6,7 @@ content.  The only non-trivial step (Sub: slice + rebase of cached ends) is disc
 context-freeness of the segmentation at boundaries (`sliceOK`, from Gem/Theory.lean).
 -/
 import RosedVerif.Model.InstAFacts
+import RosedVerif.Heap.Histories
 namespace RosedVerif.Props
 open RosedVerif RosedVerif.H
 
@@ -61,5 +62,56 @@ theorem C19_slice : SliceOK := sliceOK
 
 /-! non-vacuity: a concrete reachable history keeps the invariant and fills a cache -/
 example : (sub ⟨[0x65, 0x301, 0x61, 0x62], none⟩ 1 3 Heap.init).2.1.runes = [0x61, 0x62] := by decide +kernel
+
+
+/-! ### C19 over ALL histories (pool machine `H.Op` / `H.step` / `H.run`, Heap/Histories.lean) -/
+
+/-- after any sequence of New/Add/Sub/SetCharAt/Repeat/Len/CharAt/GraphemeIndexes/Runes over a pool of
+values including the shared zero value, the invariant holds -/
+theorem C19_histories (ops : List H.Op) : Inv (H.run ops).1 (H.run ops).2 := H.histories_inv ops
+
+/-- … also when the history starts from any state satisfying the invariant (e.g. a pool holding
+never-initialized `gem.String{}` values) -/
+theorem C19_histories_from (s : Heap × List GStr) (ops : List H.Op) (hi : Inv s.1 s.2) :
+    Inv (H.runFrom s ops).1 (H.runFrom s ops).2 := H.runFrom_inv s ops hi
+
+/-- every value of every history observes exactly as a value freshly built from the same content -/
+theorem C19_histories_pure (ops : List H.Op) : ∀ v ∈ zero :: (H.run ops).2,
+    (len v (H.run ops).1).2.1 = gLen cxA v.runes ∧
+    (graphemeIndexes v (H.run ops).1).2.1 = splitRunes v.runes ∧
+    (∀ i : Int, (charAt v i (H.run ops).1).2.1 = gCharAt cxA v.runes i) ∧
+    (runes v (H.run ops).1).2.1 = v.runes := H.histories_pure ops
+
+/-- … literally: as `New(v.runes)` executed at the end of any other history `ops'` observes -/
+theorem C19_histories_pure_fresh (ops ops' : List H.Op) : ∀ v ∈ zero :: (H.run ops).2,
+    (len v (H.run ops).1).2.1 = (len (new v.runes (H.run ops').1).2.1 (new v.runes (H.run ops').1).1).2.1 ∧
+    (graphemeIndexes v (H.run ops).1).2.1 =
+      (graphemeIndexes (new v.runes (H.run ops').1).2.1 (new v.runes (H.run ops').1).1).2.1 ∧
+    (∀ i : Int, (charAt v i (H.run ops).1).2.1 =
+      (charAt (new v.runes (H.run ops').1).2.1 i (new v.runes (H.run ops').1).1).2.1) ∧
+    (runes v (H.run ops).1).2.1 = (runes (new v.runes (H.run ops').1).2.1 (new v.runes (H.run ops').1).1).2.1 :=
+  H.histories_pure_fresh ops ops'
+
+/-- no operand is altered by the next step of any history -/
+theorem C19_histories_operands_unchanged (ops : List H.Op) (op : H.Op) :
+    ((H.step (H.run ops) op).2 = (H.run ops).2 ∨ ∃ r, (H.step (H.run ops) op).2 = r :: (H.run ops).2) ∧
+    (∀ i, i < (H.run ops).2.length → H.pick (H.step (H.run ops) op).2 i = H.pick (H.run ops).2 i) ∧
+    (∀ v ∈ zero :: (H.run ops).2,
+      (len v (H.step (H.run ops) op).1).2.1 = (len v (H.run ops).1).2.1 ∧
+      (graphemeIndexes v (H.step (H.run ops) op).1).2.1 = (graphemeIndexes v (H.run ops).1).2.1 ∧
+      (∀ i : Int, (charAt v i (H.step (H.run ops) op).1).2.1 = (charAt v i (H.run ops).1).2.1) ∧
+      (runes v (H.step (H.run ops) op).1).2.1 = (runes v (H.run ops).1).2.1 ∧
+      (∀ c x, v.cell = some c → (H.run ops).1.get c = some x → (H.step (H.run ops) op).1.get c = some x)) :=
+  H.histories_operands_unchanged ops op
+
+/-- boundaries of every value of every history partition its code points -/
+theorem C19_histories_partition (ops : List H.Op) :
+    ∀ v ∈ (H.run ops).2, Part (splitRunes v.runes) v.runes.length := H.histories_partition ops
+
+/-- … including what the cache cell actually holds and what `GraphemeIndexes` actually returns -/
+theorem C19_histories_partition_cached (ops : List H.Op) : ∀ v ∈ zero :: (H.run ops).2,
+    Part (graphemeIndexes v (H.run ops).1).2.1 v.runes.length ∧
+    ∀ c e, v.cell = some c → (H.run ops).1.get c = some e → Part e v.runes.length :=
+  H.histories_partition_cached ops
 
 end RosedVerif.Props
